@@ -278,7 +278,12 @@ def _retype(v):
 
 def helper_thread_logs(slug: str) -> bool:
     """does the generated run body of this task class log from a helper thread (decided by the class name: no scenario field)"""
-    return int(sha(('tlog:' + slug).encode() if isinstance(slug, str) else slug)[:2], 16) < 56
+    return int(sha("tlog:" + slug)[:2], 16) < 56
+
+
+def pick(tag: str, slug: str, per256: int) -> bool:
+    """a per-class coin decided by the class name (no scenario field, same answer in the simulated process and in the model)"""
+    return int(sha(tag + ':' + slug)[:2], 16) < per256
 
 
 def make_value_rev(kind: str, h: str, e: int):
